@@ -37,6 +37,12 @@ def field(f):
 
 
 def basis(b):
+    if type(b).__name__ == "CompositeBasis":
+        return {"kind": "basis", "cls": "CompositeBasis", "N": int(b.N),
+                "nelems": int(b.nelems), "X": arr(b.X), "W": arr(b.W),
+                "dx": arr(b.dx), "element_dofs": arr(b.element_dofs),
+                "basis": [[field(f) for f in tup] for tup in b.basis],
+                "parts": [basis(x) for x in b.bases]}
     out = {"kind": "basis", "cls": type(b).__name__, "N": int(b.N),
            "Nbfun": int(b.Nbfun), "nelems": int(b.nelems),
            "X": arr(b.X), "W": arr(b.W), "dx": arr(b.dx),
@@ -158,6 +164,8 @@ def operand_arrays(v, depth=0):
     if isinstance(v, Mesh):
         return digest.jdigest(mesh(v))
     if isinstance(v, AbstractBasis):
+        if type(v).__name__ == "CompositeBasis":
+            return digest.jdigest([basis(v)] + [mesh(x.mesh) for x in v.bases])
         return digest.jdigest([basis(v), mesh(v.mesh)])
     if isinstance(v, np.ndarray):
         return digest.jdigest(arr(v))
